@@ -258,29 +258,49 @@ def impl(case):
         x2, y2 = lapjv(i, j, c, augmenting_row_reductions=case["k"])
         return {"x": [int(t) for t in x], "y": [int(t) for t in y], "u": [_enc(t) for t in u], "v": [_enc(t) for t in v],
                 "same_without_duals": bool(list(x2) == list(x) and list(y2) == list(y))}
-    # tracker: record every call of the solver made by the tracker
+    # tracker: record every call of the solver made by the tracker, and the matrix it was built from
     from centrosome import neighmovetrack as T
     from centrosome import lapjv as LM
     calls = []
+    sparse_bad = []
     orig = LM.lapjv
+    orig_solve = T.NeighbourMovementTracking.solve_assignement
 
     def rec(i, j, costs, *a, **kw):
         r = orig(i, j, costs, *a, **kw)
-        calls.append({"i": [int(t) for t in i], "j": [int(t) for t in j], "x": [int(t) for t in r[0]],
-                      "y": [int(t) for t in r[1]]})
+        calls.append({"i": [int(t) for t in i], "j": [int(t) for t in j], "c": [float(t) for t in costs],
+                      "x": [int(t) for t in r[0]], "y": [int(t) for t in r[1]]})
+        return r
+
+    def solve(self, costs):
+        k0 = len(calls)
+        r = orig_solve(self, costs)
+        if costs is not None and len(costs) > 0:
+            m = np.asarray(costs)
+            exp = [(a_, b_, float(m[a_, b_])) for a_ in range(m.shape[0]) for b_ in range(m.shape[1]) if m[a_, b_] < 1000000]
+            if len(calls) != k0 + 1:
+                sparse_bad.append("solve_assignement made %d solver calls" % (len(calls) - k0))
+            else:
+                c = calls[-1]
+                if list(zip(c["i"], c["j"], c["c"])) != exp:
+                    sparse_bad.append("sparse problem differs from the entries < invalid_match of the cost matrix")
+                if r != dict(enumerate(c["x"])):
+                    sparse_bad.append("assignment dict differs from enumerate(x)")
         return r
     LM.lapjv = rec
+    T.NeighbourMovementTracking.solve_assignement = solve
     try:
         a = np.array(case["a"], int); b = np.array(case["b"], int)
         tr = T.NeighbourMovementTracking()
         res = tr.run_tracking(a, b)
     finally:
         LM.lapjv = orig
+        T.NeighbourMovementTracking.solve_assignement = orig_solve
     labs1 = [int(l) for l in np.unique(a) if l != 0]
     labs2 = [int(l) for l in np.unique(b) if l != 0]
-    last = calls[-1] if calls else None
+    last = {k: calls[-1][k] for k in ("x", "y")} if calls else None
     return {"pairs": [[int(p), int(q)] for p, q in res], "labs1": labs1, "labs2": labs2, "ncalls": len(calls),
-            "last": last,
+            "last": last, "sparse_bad": sparse_bad[:3],
             "calls_pm": [[max(c["i"]) + 1, [[a_, b_, 0] for a_, b_ in zip(c["i"], c["j"])], c["x"], c["y"]] for c in calls[:3] + calls[-1:]]}
 
 
@@ -530,6 +550,8 @@ def check(ctx, cases, outs):
         o = outs[k]
         if r != 1:
             res[k] = "tracker result is not a functional injective map (Spec.Lapjv.track_ok false): %s" % (o["pairs"][:10],)
+        elif o["sparse_bad"]:
+            res[k] = "tracker: " + o["sparse_bad"][0]
         elif any(p not in o["labs1"] or q not in o["labs2"] for p, q in o["pairs"]):
             res[k] = "tracker pairs mention labels absent from the frames"
         elif cases[k].get("cls") == "identical" and sorted(o["pairs"]) != [[l, l] for l in o["labs1"]]:
